@@ -75,7 +75,9 @@ theorem open_both_slots (h0 h1 : Header) (b0 b1 : Bool) (es : List (Entry × Boo
     openLog none (slot h0 b0 ++ slot h1 b1 ++ (entryRegion es (Spec.currentBit b0 b1) ++ tail)) =
       .ok ⟨{ bits := (b0, b1), entriesLength := es.length,
               entriesByteLength := (entryRegion es (Spec.currentBit b0 b1)).length },
-            (if b0 == b1 then h0 else h1), [], (dropTrailingPartial es).map (·.1)⟩ := by
+            (if b0 == b1 then h0 else h1),
+            (if tail.length > 0 then [.trunc .oplog (Spec.entriesOffset + (entryRegion es (Spec.currentBit b0 b1)).length)] else []),
+            (dropTrailingPartial es).map (·.1)⟩ := by
   have l0 := slot_length h0 b0 f0
   have l1 := slot_length h1 b1 f1
   have hs : Spec.headerSize = 4096 := rfl
@@ -129,10 +131,18 @@ theorem open_both_slots (h0 h1 : Header) (b0 b1 : Bool) (es : List (Entry × Boo
     simp only [readLog, c3, ite_true, dE, State.currentBit]
     rw [hEdef] at hre ⊢
     rw [hre]
+    have hcond : ((slot h0 b0 ++ slot h1 b0 ++ (entryRegion es (Spec.currentBit b0 b0) ++ tail)).length
+        > Spec.entriesOffset + (entryRegion es (Spec.currentBit b0 b0)).length) ↔ tail.length > 0 := by
+      rw [← hEdef, hlen, hEdef, hE]; simp only [List.length_append]; omega
+    simp only [hcond, List.nil_append]
   · have hbe : (b0 == b1) = false := by simpa using hb
     simp only [hbe, Bool.false_eq_true, ite_false, decode_slot h1 w1]
     simp only [readLog, c3, ite_true, dE, State.currentBit]
     rw [hEdef] at hre ⊢
     rw [hre]
+    have hcond : ((slot h0 b0 ++ slot h1 b1 ++ (entryRegion es (Spec.currentBit b0 b1) ++ tail)).length
+        > Spec.entriesOffset + (entryRegion es (Spec.currentBit b0 b1)).length) ↔ tail.length > 0 := by
+      rw [← hEdef, hlen, hEdef, hE]; simp only [List.length_append]; omega
+    simp only [hcond, List.nil_append]
 
 end HC.Oplog
